@@ -61,7 +61,7 @@ func apiTypeShape(v ssa.Value) (ptr bool, ctor string) {
 			if k, isC := st.Val.(*ssa.Const); isC && k.IsNil() {
 				continue
 			}
-			name := core.FieldOf(fa).Name()
+			name := core.FieldName(core.FieldOf(fa))
 			if name == "PointerType" {
 				_, inner := apiTypeShape(st.Val)
 				if inner == "?" {
@@ -396,7 +396,7 @@ func checkRequestRules(c *core.Ctx, l *core.Ledger) {
 				}
 			}
 			if mu, ok := in.(*ssa.MapUpdate); ok {
-				if fld, _ := core.LoadedField(mu.Map); fld != nil && fld.Name() == "Services" {
+				if fld, _ := core.LoadedField(mu.Map); fld != nil && core.FieldName(fld) == "Services" {
 					ins = in
 				}
 			}
@@ -674,7 +674,7 @@ func checkRootExact(c *core.Ctx, l *core.Ledger) {
 		var appendStore ssa.Instruction
 		core.Instrs(f, func(in ssa.Instruction) {
 			if st, ok := in.(*ssa.Store); ok {
-				if fa, ok := st.Addr.(*ssa.FieldAddr); ok && core.FieldOf(fa) != nil && core.FieldOf(fa).Name() == r.list && strings.HasPrefix(core.Sym(st.Val), "append(") {
+				if fa, ok := st.Addr.(*ssa.FieldAddr); ok && core.FieldOf(fa) != nil && core.FieldName(core.FieldOf(fa)) == r.list && strings.HasPrefix(core.Sym(st.Val), "append(") {
 					appendStore = in
 				}
 			}
@@ -702,15 +702,15 @@ func checkRootExact(c *core.Ctx, l *core.Ledger) {
 				with := false
 				for _, bi := range in.Block().Instrs {
 					if st, ok := bi.(*ssa.Store); ok {
-						if fa, ok := st.Addr.(*ssa.FieldAddr); ok && core.FieldOf(fa) != nil && core.FieldOf(fa).Name() == r.list {
+						if fa, ok := st.Addr.(*ssa.FieldAddr); ok && core.FieldOf(fa) != nil && core.FieldName(core.FieldOf(fa)) == r.list {
 							with = true
 						}
 					}
 				}
 				if with {
-					rootSet[fld.Name()] = true
+					rootSet[core.FieldName(fld)] = true
 				} else {
-					notRoot[fld.Name()] = true
+					notRoot[core.FieldName(fld)] = true
 				}
 			})
 		}
@@ -721,7 +721,7 @@ func checkRootExact(c *core.Ctx, l *core.Ledger) {
 				return
 			}
 			fld, _ := core.LoadedField(lk.X)
-			if fld == nil || !rootSet[fld.Name()] || notRoot[fld.Name()] {
+			if fld == nil || !rootSet[core.FieldName(fld)] || notRoot[core.FieldName(fld)] {
 				return
 			}
 			if !lk.CommaOk {
@@ -801,7 +801,7 @@ func formatSimpleTable(c *core.Ctx) map[string]string {
 			return false
 		}
 		fa, ok := ld.X.(*ssa.FieldAddr)
-		return ok && core.FieldOf(fa) != nil && core.FieldOf(fa).Name() == "SimpleType"
+		return ok && core.FieldOf(fa) != nil && core.FieldName(core.FieldOf(fa)) == "SimpleType"
 	}
 	for _, k := range core.ConstsOf(c.Pkg("plugin/api").Types, st) {
 		kv, _ := constant.Int64Val(k.Val())
